@@ -115,6 +115,17 @@ pub fn run(_sub: &str, opts: &Opts, w: &mut dyn Write) {
         h.push((0xff05, rng.u8(), false));
         h
       } else { hist };
+      // one history in eight is about LCDC: display on, enough time to leave VBlank (the LCD starts at the beginning of
+      // VBlank: 4560 clocks) and to reach some mode of a drawn line, then a write with bit 7 clear - every written bit must
+      // read back whatever the LCD is doing
+      let hist: Vec<(u32, u8, bool)> = if rng.chance(1, 8) {
+        let mut h = vec![(0xff40u32, 0x80 | rng.u8(), false), (65536, 72 + (rng.u8() % 8), false)];
+        let extra = rng.below(120) as u32;                       // 0..119 machine cycles further: modes 2, 3, 0 of the line
+        if extra > 0 { h.push((65537, extra as u8, false)); }
+        h.push((0xff40, rng.u8() & 0x7f, false));
+        if rng.chance(1, 2) { h.push((65537, rng.u8(), false)); h.push((0xff40, rng.u8(), false)); }
+        h
+      } else { hist };
       // one history in four talks to the cartridge controller only: every order of bank-low / bank-high / mode / RAM-enable
       // writes, so that the window is read back after each kind of register was the last one written
       let hist: Vec<(u32, u8, bool)> = if rng.chance(1, 4) {
